@@ -243,12 +243,12 @@ Proof.
     apply dse_go_spec. exists (a ++ [] ++ u), []. rewrite !app_nil_r. repeat split; auto.
     apply nonl_app. auto.
   - destruct t; cbn [app tmatch] in *.
-    + destruct s as [|x s]; [discriminate|]. cbn. apply andb_true_iff in H as [Hx H]. rewrite Hx. now apply IH.
-    + destruct s as [|x s]; [discriminate|]. cbn. apply andb_true_iff in H as [Hx H]. rewrite Hx. now apply IH.
+    + destruct s as [|x s]; [discriminate|]. cbn [app]. rewrite andl_spec in *. apply andb_true_iff in H as [Hx H]. rewrite Hx. now apply IH.
+    + destruct s as [|x s]; [discriminate|]. cbn [app]. rewrite andl_spec in *. apply andb_true_iff in H as [Hx H]. rewrite Hx. now apply IH.
     + apply star_go_spec in H as (a & b & -> & Ha & Hb). apply star_go_spec.
       exists a, (b ++ u). rewrite app_assoc. repeat split; auto.
-    + destruct s as [|x s]; [discriminate|]. cbn. apply andb_true_iff in H as [Hx H]. rewrite Hx. now apply IH.
-    + apply orb_true_iff in H as [H|H]; apply orb_true_iff.
+    + destruct s as [|x s]; [discriminate|]. cbn [app]. rewrite andl_spec in *. apply andb_true_iff in H as [Hx H]. rewrite Hx. now apply IH.
+    + rewrite orl_spec in *. apply orb_true_iff in H as [H|H]; apply orb_true_iff.
       * left. now apply IH.
       * right. apply dss_go_spec in H as (a & b & -> & Ha & Hb). apply dss_go_spec.
         exists a, (b ++ u). rewrite <- app_assoc. repeat split; auto.
@@ -325,4 +325,37 @@ Proof.
   destruct (rev (tokenize (r_val r))) as [|t ts] eqn:E; [discriminate|].
   destruct t; try discriminate. exists (rev ts).
   rewrite <- (rev_involutive (tokenize (r_val r))), E. reflexivity.
+Qed.
+
+(* ====================================================================== *)
+(* C19: parsing a rule file never panics                                   *)
+(* ====================================================================== *)
+Lemma last_char_cons c r : last_char (c :: r) <> None.
+Proof.
+  unfold last_char. destruct (rev (c :: r)) eqn:E; [|discriminate].
+  apply (f_equal (@length ascii)) in E. rewrite rev_length in E. discriminate.
+Qed.
+
+Lemma read_line_no_panic rs line : read_line rs line <> PPanic.
+Proof.
+  unfold read_line. destruct line as [|l0 l]; [discriminate|].
+  destruct (trim_space (l0 :: l)) as [|c0 rest0]; [discriminate|].
+  destruct (Ascii.eqb c0 hash); [discriminate|].
+  destruct (Ascii.eqb c0 bang && is_empty rest0) eqn:E1; [discriminate|].
+  destruct (Ascii.eqb c0 bang) eqn:Eb.
+  - destruct rest0 as [|r0 rest]; [discriminate|].
+    destruct (last_char (r0 :: rest)) eqn:El; [discriminate|]. now apply last_char_cons in El.
+  - destruct (last_char (c0 :: rest0)) eqn:El; [discriminate|]. now apply last_char_cons in El.
+Qed.
+
+Lemma read_lines_no_panic : forall lines rs, read_lines rs lines <> PPanic.
+Proof.
+  induction lines as [|l lines IH]; intros rs; cbn; [discriminate|].
+  destruct (read_line rs l) eqn:E; [apply IH|]. now apply read_line_no_panic in E.
+Qed.
+
+Theorem read_rules_no_panic flags data : fst (read_rules flags data) <> PPanic.
+Proof.
+  unfold read_rules. destruct (read_lines _ _) eqn:E; cbn; [discriminate|].
+  now apply read_lines_no_panic in E.
 Qed.
